@@ -7,6 +7,7 @@ import (
 	"math/big"
 	"os"
 	"path/filepath"
+	"sync"
 	"time"
 
 	"worldcoin/gnark-mbu/prover"
@@ -176,6 +177,42 @@ func runC11(o *cli.Opts, run *evid.Run) {
 		}
 		os.Remove(shared)
 	}
+	// (b3) one ProvingSystem VALUE loaded from one file and then from another (a long-lived holder that reloads
+	// its keys): after each load it must be the system that was just read — header, digests, and it must prove
+	{
+		var holder prover.ProvingSystem
+		r := gen.RNG(o.Seed, "C11/reused-value")
+		for i := 0; i < o.Pick(16, 120); i++ {
+			key := fmt.Sprintf("C11/reused-value/%d", i)
+			if !run.Wants(key) {
+				continue
+			}
+			ps, k, err := smallSystem(r)
+			if err != nil {
+				continue
+			}
+			raw := i%2 == 0
+			data, _, _ := serialise(ps, raw)
+			ok := true
+			if _, err := holder.UnsafeReadFrom(bytes.NewReader(data)); err != nil {
+				ok = false
+				run.Violate(key, "UnsafeReadFrom into a ProvingSystem value that had been loaded before fails: "+err.Error(), nil)
+			} else if d := sameSystem(ps, &holder); d != "" {
+				ok = false
+				run.Violate(key, "a ProvingSystem value re-loaded from another file is not the system in that file: "+d, map[string]any{"load_number": i})
+			} else {
+				x := gen.Below(r, ref.R)
+				if p2, y2, err := smallProve(&holder, k, x); err != nil {
+					ok = false
+					run.Violate(key, "a ProvingSystem value re-loaded from another file cannot prove: "+err.Error(), map[string]any{"load_number": i})
+				} else if err := smallVerify(ps, k, p2, y2); err != nil {
+					ok = false
+					run.Violate(key, "the original rejects a proof made by a re-loaded ProvingSystem value: "+err.Error(), nil)
+				}
+			}
+			run.Case("small/reused-value", true, key, ok, map[string]any{"load_number": i, "format": fmtName(raw), "constraints": ps.ConstraintSystem.GetNbConstraints()})
+		}
+	}
 	run.Stage("overwrite")
 	// (a) real systems
 	type dimM struct {
@@ -190,6 +227,8 @@ func runC11(o *cli.Opts, run *evid.Run) {
 	if berr != nil {
 		run.Violate("C11/build", berr.Error(), nil)
 	}
+	var realHolder prover.ProvingSystem
+	var realHolderMu sync.Mutex
 	cli.ForEach(len(dims), 2, func(di int) {
 		dm := dims[di]
 		key := fmt.Sprintf("C11/real/%s/d=%d/b=%d", dm.mode, dm.d, dm.b)
@@ -266,6 +305,21 @@ func runC11(o *cli.Opts, run *evid.Run) {
 				}
 				os.Remove(inplace)
 			}
+		}
+		// the shared holder: whatever real system was loaded into it before, after this load it must be this one and prove
+		if len(variants) > 0 {
+			realHolderMu.Lock()
+			if _, err := realHolder.UnsafeReadFrom(bytes.NewReader(variants[0].data)); err != nil {
+				run.Violate(key+"/reused-value", "UnsafeReadFrom into a previously loaded ProvingSystem value fails: "+err.Error(), nil)
+			} else if d := sameSystem(ps, &realHolder); d != "" {
+				run.Violate(key+"/reused-value", "a ProvingSystem value re-loaded from another keys file is not the system in that file: "+d, nil)
+			} else if p2, h2, err := prove(&realHolder); err != nil {
+				run.Violate(key+"/reused-value", "a ProvingSystem value re-loaded from another keys file cannot prove a valid batch: "+err.Error(), nil)
+			} else if err := verify(ps, h2, p2); err != nil {
+				run.Violate(key+"/reused-value", "the original rejects a proof made by a re-loaded ProvingSystem value: "+err.Error(), nil)
+			}
+			run.Case("real/reused-value", true, key+"/reused-value", true, map[string]any{"mode": dm.mode, "depth": dm.d, "batch": dm.b})
+			realHolderMu.Unlock()
 		}
 		for vi, v := range variants {
 			for _, via := range []string{"UnsafeReadFrom", "ReadSystemFromFile"} {
